@@ -944,7 +944,8 @@ def _quant(E, n, forall):
     names = [a.arg for a in lam.args.args]
     sorts_ = n.args[:-1]
     bound = []
-    saved = dict(E.frame.env)
+    saved = E.frame.env                  # the frame's own dict object is put back afterwards
+    E.frame.env = dict(saved)
     for i, nm in enumerate(names):
         ty = INT
         if i < len(sorts_):
@@ -968,14 +969,14 @@ def _quant(E, n, forall):
     pats = []
     for kw in n.keywords:
         if kw.arg == "trigger" and isinstance(kw.value, ast.Lambda):
-            env2 = dict(E.frame.env)
-            for nm, c in zip(names, bound):
-                ty = INT
+            orig_env = E.frame.env
+            E.frame.env = dict(orig_env)
+            for nm in names:
                 E.frame.env[nm] = benv[nm]
             try:
                 tv = E.eval(kw.value.body)
             finally:
-                E.frame.env = env2
+                E.frame.env = orig_env
             tvs = tv if isinstance(tv, tuple) else (tv,)
             terms = [x.t for x in tvs if hasattr(x, "t")]
             if terms:
